@@ -111,6 +111,44 @@ fn run_worker(args: &[&str], threads: usize) -> (String, String, Option<i32>) {
     (String::from_utf8_lossy(&out.stdout).into_owned(), String::from_utf8_lossy(&out.stderr).into_owned(), out.status.code())
 }
 
+/// run one worker of the trapping flavour; returns (cases executed, crashes located outside the harness)
+pub fn trapping_pass(args: &[&str], env: &[(&str, &str)]) -> (u64, Vec<(String, String, String)>) {
+    if !std::path::Path::new(CHECKED_BIN).exists() {
+        machinery_failure("trapping-flavour binary missing (the ./check driver builds it)");
+    }
+    let out = Command::new(CHECKED_BIN)
+        .args(args)
+        .env("VCHECK_WORKER", "1")
+        .envs(env.iter().cloned())
+        .env("RUST_BACKTRACE", "0")
+        .stdin(Stdio::null())
+        .output()
+        .unwrap_or_else(|e| machinery_failure(&format!("cannot start worker {CHECKED_BIN}: {e}")));
+    let stdout = String::from_utf8_lossy(&out.stdout);
+    let stderr = String::from_utf8_lossy(&out.stderr);
+    let mut n = 0;
+    for line in stdout.lines() {
+        if let Some(rest) = line.strip_prefix("WORKER-COVERAGE ") {
+            if let Some((_, js)) = rest.split_once(' ') {
+                if let Ok(v) = serde_json::from_str::<Value>(js) {
+                    n += v["evaluations"].as_u64().unwrap_or(0);
+                }
+            }
+        }
+    }
+    let mut crashes = vec![];
+    for c in scan(args.get(1).copied().unwrap_or("?"), &stderr, out.status.code()) {
+        if c.in_harness {
+            machinery_failure(&format!("trapping-flavour worker failed inside the harness: {}", c.detail));
+        }
+        crashes.push((c.class, c.detail, c.case));
+    }
+    if n == 0 && crashes.is_empty() {
+        machinery_failure("trapping-flavour worker reported no coverage");
+    }
+    (n, crashes)
+}
+
 pub fn run_c07(args: &Args) -> i32 {
     let report = Report::new("C07", args.tier, args.seed, "exploration");
     if !std::path::Path::new(CHECKED_BIN).exists() {
@@ -289,7 +327,7 @@ pub fn extremal(tier: Tier) -> u64 {
 
 pub fn worker_main(cmd: &str, args: &Args) -> i32 {
     enter_worker_mode();
-    crate::fenfuzz::EXERCISE.store(true, std::sync::atomic::Ordering::Relaxed);
+    crate::fenfuzz::EXERCISE.store(std::env::var("VCHECK_C06_LIGHT").is_err(), std::sync::atomic::Ordering::Relaxed);
     match cmd {
         "extremal" => {
             let n = extremal(args.tier);
